@@ -81,6 +81,13 @@ static const Hand HAND[] = {
     {"lea rax, [rbx+0x10000000000000000]", CF_EITHER},
     {"add rcx, 0x100000000000000000000", CF_EITHER},
     {"mov rdx, -99999999999999999999999", CF_EITHER},
+    // literals in the upper half of 32 bits: the narrowing decision of the mov-immediate modes is made per line
+    {"mov rcx, 0x80000000", CF_SAFE},
+    {"mov rdx, 0xffffffff", CF_SAFE},
+    {"mov r8, 0xdeadbeef", CF_SAFE},
+    {"mov r11, 0x00000000ffffffff", CF_SAFE},
+    {"mov rcx, 4294967295", CF_SAFE},
+    {"mov r9, 2147483648", CF_SAFE},
     // the shortest literals there are: one decimal digit (whatever follows the digit in memory is not part of it)
     {"mov rcx, 5", CF_SAFE},
     {"mov r10, 7", CF_SAFE},
